@@ -2,7 +2,6 @@ package main
 
 import (
 	"go/token"
-	"strings"
 
 	"golang.org/x/tools/go/ssa"
 )
@@ -56,10 +55,11 @@ func (vc *VC) pow2Term(n Term) Term {
 // nameBV binds a bit-vector term to a fresh constant (declare + equality), unless it
 // mentions bound variables.
 func (vc *VC) nameBV(prefix string, t Term) Term {
-	if strings.Contains(t.S, "q_") || strings.Contains(t.S, "p!") || strings.Contains(t.S, "h!") {
+	if hasFreeBound(t.S) {
 		return t
 	}
 	c := vc.fresh(prefix, t.Sort)
 	vc.emit("(assert (= " + c.S + " " + t.S + "))")
 	return c
 }
+
